@@ -14,6 +14,8 @@ import (
 	"github.com/enfein/mieru/v3/apis/constant"
 	"github.com/enfein/mieru/v3/apis/model"
 	"github.com/enfein/mieru/v3/apis/server"
+	"github.com/enfein/mieru/v3/apis/trafficpattern"
+	"github.com/enfein/mieru/v3/pkg/appctl/appctlcommon"
 	"github.com/enfein/mieru/v3/pkg/appctl/appctlpb"
 	mcipher "github.com/enfein/mieru/v3/pkg/cipher"
 	"github.com/enfein/mieru/v3/pkg/metrics"
@@ -54,6 +56,10 @@ type Config struct {
 	MaxSteps       uint64
 	NoClient       bool
 	BothTransports bool // server listens on TCP and UDP
+	// RawMux: drive pkg/protocol.Mux directly (the layer the mieru/mita daemons use)
+	// instead of the apis/client + apis/server wrappers: no socks5 request/response is
+	// exchanged, a client session stays in its initial state until it reads.
+	RawMux bool
 }
 
 type World struct {
@@ -62,6 +68,8 @@ type World struct {
 	Srv   server.Server
 	Cli   client.Client
 	S     *vsched.Sched
+	CMux  *protocol.Mux // RawMux mode
+	SMux  *protocol.Mux
 	Errs  []string // harness-level failures (setup errors)
 	Notes []string
 }
@@ -196,7 +204,67 @@ func (w *World) NewClient(user *appctlpb.User, src net.IP) (client.Client, error
 	return cli, nil
 }
 
+func (w *World) startRaw() error {
+	var err error
+	w.OnNode("server", func() {
+		sc := w.ServerConfig()
+		m := protocol.NewMux(false)
+		m.SetStreamListenerFactory(simnet.StreamFactory{N: w.Net}).SetPacketListenerFactory(simnet.PacketFactory{N: w.Net})
+		tpc, e := trafficpattern.NewConfig(sc.TrafficPattern)
+		if e != nil {
+			err = e
+			return
+		}
+		m.SetTrafficPattern(tpc).SetServerUsers(appctlcommon.UserListToMap(sc.GetUsers())).SetServerUserHintIsMandatory(w.Cfg.HintMandatory)
+		mtu := 1400
+		if w.Cfg.MTU != 0 {
+			mtu = w.Cfg.MTU
+		}
+		eps, e := appctlcommon.PortBindingsToUnderlayProperties(sc.GetPortBindings(), mtu)
+		if e != nil {
+			err = e
+			return
+		}
+		m.SetEndpoints(eps)
+		if e := m.Start(); e != nil {
+			err = e
+			return
+		}
+		w.SMux = m
+	})
+	if err != nil {
+		return err
+	}
+	user := w.Cfg.ClientUser
+	if user == nil {
+		if w.Cfg.Users != nil {
+			user = w.Cfg.Users[0]
+		} else {
+			user = DefaultUsers()[0]
+		}
+	}
+	w.OnNode("client", func() {
+		w.CMux, err = appctlcommon.NewClientMuxFromProfile(w.ClientProfile(user),
+			simnet.Dialer{N: w.Net, C2S: w.Cfg.C2S, S2C: w.Cfg.S2C}, simnet.PacketDialer{N: w.Net}, nil, nil)
+	})
+	return err
+}
+
+// RawDial / RawAccept are the RawMux counterparts of Dial / Accept.
+func (w *World) RawDial() (c net.Conn, err error) {
+	w.OnNode("client", func() { c, err = w.CMux.DialContext(context.Background()) })
+	return
+}
+
+func (w *World) RawAccept() (c net.Conn, err error) {
+	w.OnNode("server", func() { c, err = w.SMux.Accept() })
+	return
+}
+
 func (w *World) start() error {
+	if w.Cfg.RawMux {
+		return w.startRaw()
+	}
 	var err error
 	w.OnNode("server", func() {
 		w.Srv = server.NewServer()
@@ -285,6 +353,15 @@ func (g *Group) Wait() { g.wg.Wait() }
 
 // Shutdown stops client and server.
 func (w *World) Shutdown() {
+	if w.Cfg.RawMux {
+		if w.CMux != nil {
+			w.OnNode("client", func() { w.CMux.Close() })
+		}
+		if w.SMux != nil {
+			w.OnNode("server", func() { w.SMux.Close() })
+		}
+		return
+	}
 	if w.Cli != nil {
 		w.OnNode("client", func() { w.Cli.Stop() })
 	}
